@@ -187,11 +187,41 @@ def reap_forwarding_rule(ctx, rid):
     return rr
 
 
+def fn_args_default_rule(ctx, rid):
+    """C06.R8 (sibling cross-check): Runner.run_cases resolves an omitted
+    fn_args from the runner's declared argument order; Crop.sow_cases must
+    resolve it from the same source when a runner is attached, otherwise
+    tuple cases are bound to other parameters than in the direct run."""
+    from ..flow import Flow, NONE, NOTNONE
+    rr = ctx.rule(rid, "an omitted fn_args is resolved from the runner's declared order in sow_cases exactly as in Runner.run_cases", floor=2)
+    prog = ctx.prog
+    rc = prog.need_func("xyzpy.gen.farming.Runner.run_cases")
+    ctx.touch(rc)
+    src = [norm(st.value) for st in ast.walk(rc.node) if isinstance(st, ast.Assign) and norm(st.targets[0]) == "fn_args"]
+    need(any("self._fn_args" in x or "self.fn_args" in x for x in src), "idiom changed: Runner.run_cases default of fn_args (%s)" % src)
+    rr.ok("Runner.run_cases: fn_args defaults to the runner's declared order (%s)" % src[0])
+    sc = prog.need_cls(CROP + ".Crop").methods["sow_cases"]
+    g = build_cfg(sc.node)
+    ctx.touch(sc, g)
+    fl = Flow(g, {"fn_args": NONE, "self.runner": NOTNONE, "self.farmer": NOTNONE, "batchsize": NONE, "num_batches": NONE}).run()
+    defs = [n for n in g.nodes if n.id in fl.visited and n.kind == "stmt" and isinstance(n.ast, ast.Assign) and norm(n.ast.targets[0]) == "fn_args"]
+    need(defs, "anchor lost: sow_cases does not normalise fn_args")
+    vals = [norm(n.ast.value) for n in defs]
+    if any(("runner._fn_args" in v or "runner.fn_args" in v or "farmer.fn_args" in v or "farmer._fn_args" in v) for v in vals):
+        rr.ok("sow_cases: with a runner attached an omitted fn_args is taken from the runner (%s)" % "; ".join(vals))
+    elif all(v.startswith("parse_fn_args(") and "_fn" in v for v in vals):
+        rr.bad(ctx.finding(rid, sc, defs[0].ast, "with a runner attached sow_cases resolves an omitted fn_args from the function's signature (`%s`), while Runner.run_cases uses the runner's declared order: tuple cases of a runner "
+                           "declared with another argument order are bound to different parameters than in the direct run" % vals[0], construct="fn-args-default"), "fn_args default")
+    else:
+        raise AnalysisError("idiom changed: fn_args normalisation in sow_cases: %s" % vals)
+    return rr
+
+
 def sow_constants_rule(ctx, rid):
     """Constants given at sowing are arguments of the evaluation just like a
     direct run's `constants=`: they must be persisted and label the reaped
     data, not only be passed to the function."""
-    rr = ctx.rule(rid, "constants given to sow_* are persisted with the crop and label the reaped data as in a direct run", floor=2)
+    rr = ctx.rule(rid, "constants given to sow_* are persisted with the crop and label the reaped data as in a direct run", floor=4)
     prog = ctx.prog
     crop = prog.need_cls(CROP + ".Crop")
     si = crop.methods["save_info"]
@@ -207,6 +237,27 @@ def sow_constants_rule(ctx, rid):
         if "constants" not in m.params:
             rr.ok("%s takes no constants" % name)
             continue
+        # the raw argument may be a one-shot iterable of pairs: it can be handed to a consumer only once
+        stmts = sorted((st for st in walk_shallow(m.node) if isinstance(st, ast.stmt) and st is not m.node), key=lambda st: (st.lineno, st.col_offset))
+        raw_uses = []
+        for st in stmts:
+            if isinstance(st, (ast.FunctionDef, ast.AsyncFunctionDef, ast.ClassDef, ast.If, ast.For, ast.While, ast.With, ast.Try)):
+                heads = [st.test] if isinstance(st, (ast.If, ast.While)) else [st.iter] if isinstance(st, ast.For) else []
+            else:
+                heads = [st]
+            for h in heads:
+                for c in ast.walk(h):
+                    if isinstance(c, ast.Call):
+                        for a in list(c.args) + [k.value for k in c.keywords]:
+                            if isinstance(a, ast.Name) and a.id == "constants":
+                                raw_uses.append(c)
+            if isinstance(st, ast.Assign) and any(isinstance(t, ast.Name) and t.id == "constants" for t in st.targets):
+                break
+        if len(raw_uses) <= 1:
+            rr.ok("%s hands the raw `constants` argument to one consumer only (%s)" % (name, norm(raw_uses[0])[:50] if raw_uses else "none"))
+        else:
+            rr.bad(ctx.finding(rid, m, raw_uses[1], "%s passes the raw `constants` argument to %d consumers (%s): given as a one-shot iterable of pairs (zip(...), a generator) the second consumer sees it exhausted, so the function runs with "
+                               "other constants than the ones the reaped data is labelled with" % (name, len(raw_uses), "; ".join(norm(c)[:40] for c in raw_uses)), construct="constants-consumed-twice " + name), "%s consumes constants once" % name)
         prep = [c for nd, c, nm in all_calls(ctx, m) if nm == CROP + ".Crop.prepare"]
         need(prep, "anchor lost: %s prepare" % name)
         pk = arg(prep[0], None, "constants")
@@ -243,6 +294,9 @@ def sow_constants_rule(ctx, rid):
 def run(ctx):
     parity_rule(ctx, "C06.R1")
     sow_constants_rule(ctx, "C06.R7")
+    fn_args_default_rule(ctx, "C06.R8")
+    from . import c04 as _c04
+    _c04.fresh_settings_rule(ctx, "C06.R9")
     shared.precedence_rule(ctx, "C06.R2")
     last_result_rule(ctx, "C06.R3")
     persistence_rule(ctx, "C06.R4")
